@@ -14,6 +14,9 @@ region's state as of that run.
 * `acks_partition_writes` : acknowledgements are exactly the writes, each once, in order.
 * `keyed_counter_read_after_write` : the per-key counter of the tutorial: a `get` in tick `t'`
   sees at least the increments of its key acknowledged in ticks `≤ t ≤ t'` (exactly those `≤ t'`).
+* `lastWriter_ack_implies_visible`, `lastWriter_read_after_ack`, `max_ack_implies_visible`,
+  `keyed_lww_read_after_write` : the same region with reduce-style state (`last` / `max` / keyed
+  `reduce`): a read sees the last (max) acknowledged write, also ticks later without new writes.
 Partial: the placement of the region's operators into one tick is modelled (production lowers
 `BeginAtomic`/`EndAtomic`/`Batch` to `out = in` on one DFIR graph), tied by the corpus only.
 -/
@@ -185,7 +188,147 @@ so a read through `use::snapshot` can miss a write that was already acknowledged
 theorem nonatomic_snapshot_can_miss_ack :
     runSnaps ⟨[], none⟩ [([0], .pick 0), ([1], .again)] = [some 0, some 0] := by decide
 
+/-! ### reduce-style registers: last-writer-wins (`last` / `reduce`), `max`, keyed `reduce`
+
+The state of these registers is kept by DFIR `reduce` / `reduce_keyed` (`emit_core`'s Reduce /
+ReduceKeyed arm), which must be `'static` in an atomic region exactly like the fold of the summing
+register.  The model is the same region with "keep last" / "keep max" as the fold. -/
+
+theorem aux_lww_foldl {α : Type} (l : List α) (o : Option α) :
+    l.foldl lwwStep o = l.getLast?.or o := by
+  induction l generalizing o with
+  | nil => simp
+  | cons x xs ih =>
+    rw [List.foldl_cons, ih]
+    cases xs with
+    | nil => simp [lwwStep]
+    | cons y ys =>
+      have hz : ∃ z, (y :: ys).getLast? = some z := by
+        cases hz : (y :: ys).getLast? with
+        | none => simp at hz
+        | some z => exact ⟨z, rfl⟩
+      obtain ⟨z, hz⟩ := hz
+      rw [List.getLast?_cons_cons, hz]
+      rfl
+
+/-- Last-writer-wins register, every schedule: the value an atomic snapshot reads in tick `t` is
+the LAST write acknowledged in ticks `0..t`; in particular once any acknowledgement has been
+released the register is never read as empty. -/
+theorem lastWriter_ack_implies_visible {α : Type} (s : AtomSt (Option α) α) (hs : s.st = none)
+    (sched : List (List α × Nat)) (t : Nat) (a : List α) (st : Option α)
+    (h : (runAtomic lwwStep s sched)[t]? = some (a, st)) :
+    st = (acksUpTo (runAtomic lwwStep s sched) t).getLast? ∧
+      (acksUpTo (runAtomic lwwStep s sched) t ≠ [] → st ≠ none) := by
+  have hv := ack_implies_visible lwwStep s sched t a st h
+  rw [aux_lww_foldl, hs, Option.or_none] at hv
+  refine ⟨hv, fun hne => ?_⟩
+  rw [hv]
+  simpa [List.getLast?_eq_none_iff] using hne
+
+/-- Read after an acknowledged write, in a LATER tick: the read of tick `t + d` is the last write
+acknowledged in ticks `t+1..t+d` if there is one, else still what tick `t` read (the register does
+not forget between ticks); if anything was acknowledged up to tick `t` it is not empty. -/
+theorem lastWriter_read_after_ack {α : Type} (s : AtomSt (Option α) α) (hs : s.st = none)
+    (sched : List (List α × Nat)) (t d : Nat) (a a' : List α) (st st' : Option α)
+    (h : (runAtomic lwwStep s sched)[t]? = some (a, st))
+    (h' : (runAtomic lwwStep s sched)[t + d]? = some (a', st')) :
+    ∃ between, acksUpTo (runAtomic lwwStep s sched) (t + d) =
+        acksUpTo (runAtomic lwwStep s sched) t ++ between ∧
+      st' = between.getLast?.or st ∧
+      (acksUpTo (runAtomic lwwStep s sched) t ≠ [] → st' ≠ none) := by
+  obtain ⟨between, e1, e2⟩ := later_snapshot_extends_earlier lwwStep s sched t d a a' st st' h h'
+  refine ⟨between, e1, ?_, fun hne => ?_⟩
+  · rw [e2, aux_lww_foldl]
+  · have h1 := (lastWriter_ack_implies_visible s hs sched t a st h).2 hne
+    rw [e2, aux_lww_foldl]
+    cases hb : between.getLast? <;> simp [h1]
+
+/-- Tie to the verdict `simLwwOk` on recorded simulator executions: the register value an atomic
+snapshot reads is the last element of a prefix `P` of all writes `W` (`atomic_snapshot_reads_acked_prefix`
++ `lastWriter_ack_implies_visible`); if `P` contains the `k` writes acknowledged before the read was
+issued, the verdict's clause `lwwFrom` accepts it. -/
+theorem lww_snapshot_admissible (W P : List Int) (hP : P <+: W) (k : Nat) (hk : k ≤ P.length) :
+    lwwFrom W k P.getLast? = true := by
+  obtain ⟨S, rfl⟩ := hP
+  cases h : P.getLast? with
+  | none =>
+    rw [List.getLast?_eq_none_iff] at h
+    subst h
+    simp at hk
+    simp [lwwFrom, hk]
+  | some x =>
+    obtain ⟨Q, rfl⟩ := List.getLast?_eq_some_iff.1 h
+    simp only [lwwFrom]
+    have hk' : k - 1 ≤ Q.length := by simp at hk; omega
+    rw [List.append_assoc, List.drop_append_of_le_length hk']
+    simp
+
+example : simLwwOk [.w 11, .ack 11, .r 1, .fin, .resp 1 11] = true ∧
+    simLwwOk [.w 11, .ack 11, .r 1, .fin, .respNone 1] = false ∧
+    simLwwOk [.w 11, .w 22, .ack 11, .ack 22, .r 1, .fin, .resp 1 11] = false ∧
+    simLwwOk [.w 11, .r 1, .fin, .ack 11, .respNone 1] = true := by decide
+
+theorem aux_maxStep_ge (o : Option Int) (x : Int) :
+    ∃ m, maxRegStep o x = some m ∧ x ≤ m ∧ ∀ w, o = some w → w ≤ m := by
+  cases o with
+  | none => exact ⟨x, rfl, Int.le_refl _, by simp⟩
+  | some m0 =>
+    refine ⟨maxStep m0 x, rfl, ?_, ?_⟩ <;> unfold maxStep
+    · split <;> omega
+    · intro w hw
+      cases hw
+      split <;> omega
+
+theorem aux_max_foldl_ge (l : List Int) (o : Option Int) (w : Int) (hw : w ∈ l ∨ o = some w) :
+    ∃ m, l.foldl maxRegStep o = some m ∧ w ≤ m := by
+  induction l generalizing o w with
+  | nil =>
+    rcases hw with hw | hw
+    · simp at hw
+    · exact ⟨w, by simp [hw], Int.le_refl _⟩
+  | cons x xs ih =>
+    obtain ⟨m', hm', hx, ho⟩ := aux_maxStep_ge o x
+    rw [List.foldl_cons]
+    obtain ⟨m, h1, h2⟩ := ih (maxRegStep o x) m' (Or.inr hm')
+    rcases hw with hw | hw
+    · rcases List.mem_cons.1 hw with e | e
+      · exact ⟨m, h1, by omega⟩
+      · exact ih (maxRegStep o x) w (Or.inl e)
+    · exact ⟨m, h1, by have := ho w hw; omega⟩
+
+/-- High-water-mark register (`max`), every schedule: an atomic snapshot of tick `t` is at least
+every write acknowledged in ticks `0..t` (and is not empty once one was acknowledged). -/
+theorem max_ack_implies_visible (s : AtomSt (Option Int) Int)
+    (sched : List (List Int × Nat)) (t : Nat) (a : List Int) (st : Option Int)
+    (h : (runAtomic maxRegStep s sched)[t]? = some (a, st)) (w : Int)
+    (hw : w ∈ acksUpTo (runAtomic maxRegStep s sched) t) :
+    ∃ m, st = some m ∧ w ≤ m := by
+  rw [ack_implies_visible maxRegStep s sched t a st h]
+  exact aux_max_foldl_ge _ _ w (Or.inl hw)
+
+/-- Per-key last-writer-wins registers (keyed `reduce`), every schedule: a `get` of `key` served
+from the atomic snapshot of tick `t` reads the last write to `key` acknowledged in ticks `0..t`
+(so it is answered at all once such a write was acknowledged). -/
+theorem keyed_lww_read_after_write (s : AtomSt (List (Int × Int)) (Int × Int)) (hs : s.st = [])
+    (sched : List (List (Int × Int) × Nat)) (t : Nat) (a : List (Int × Int)) (m : List (Int × Int))
+    (h : (runAtomic klwwStep s sched)[t]? = some (a, m)) (key : Int) :
+    lookup m key = (group key (acksUpTo (runAtomic klwwStep s sched) t)).getLast? := by
+  have hv := ack_implies_visible klwwStep s sched t a m h
+  have hl := aux_foldUp_lookup (fun (v : Int) (_ : Option Int) => v)
+    (acksUpTo (runAtomic klwwStep s sched) t) [] key
+  have hf := aux_lww_foldl (group key (acksUpTo (runAtomic klwwStep s sched) t)) none
+  rw [Option.or_none] at hf
+  rw [hv, hs, ← hf]
+  exact hl
+
 /-! ### non-vacuity -/
+example : runAtomic (lwwStep (α := Int)) ⟨[], none⟩ [([5], 1), ([], 0), ([], 0), ([9, 2], 2), ([], 0)] =
+    [([5], some 5), ([], some 5), ([], some 5), ([9, 2], some 2), ([], some 2)] := by decide
+example : runAtomic maxRegStep ⟨[], none⟩ [([], 0), ([3, 1], 2), ([], 0), ([2], 1)] =
+    [([], none), ([3, 1], some 3), ([], some 3), ([2], some 3)] := by decide
+example : runAtomic klwwStep ⟨[], []⟩ [([(7, 1), (8, 2)], 2), ([], 0), ([(7, 3)], 1)] =
+    [([(7, 1), (8, 2)], [(7, 1), (8, 2)]), ([], [(7, 1), (8, 2)]), ([(7, 3)], [(7, 3), (8, 2)])] := by decide
+
 example : runAtomic (fun (s : Int) w => s + w) ⟨[], 0⟩ [([1, 2], 1), ([3], 5), ([], 1)] =
     [([1], 1), ([2, 3], 6), ([], 6)] := by decide
 example : runAtomic counterStep ⟨[], []⟩ [([(0, 7), (1, 7)], 2), ([(0, 8)], 1)] =
